@@ -25,13 +25,14 @@ DEV_CLASSES = {
     "6": "C13-F6 additionalProperties exclusion regexp built from property names skips the empty name / is ^()$ without names (decode.go excludeFields; empty_name_refuted)",
     "7": "C13-F7 matchIf / list.MatchN called with an error value (`false` as if/then/else/contains) fails for every instance",
     "8": "C13-F8 duplicate property names",
+    "12": "C13-F13 close({..}) unified with a conjunct that has an open struct alternative ({...} or a literal with `...`): through cue.Value.Unify the closedness is lost (evaluator; e.g. additionalProperties:false next to a hoisted anyOf/allOf/oneOf member or a $ref); schemas of this class are compared but a disagreement is reported as this finding",
     "11": "C13-F11 an error value (`false`, or a subschema no type can satisfy) as a member of a matchN list: correct on its own, but next to a second validator the evaluator rejects list/struct instances (evaluator interaction, observed; schemas of this class are compared but a disagreement is reported as this finding)",
     "10": "C13-F10 type list containing both \"integer\" and \"number\": the int constraint added for \"integer\" stays, non-integers are rejected (constraints_generic.go constraintType; integer_and_number_refuted)",
     "9": "C13-F9 oneOf whose members have no constraints and disjoint type masks is encoded by the union of the masks; a member `false` counts as its full mask, so oneOf:[false] accepts instances (constraints_combinator.go constraintOneOf; oneOf_false_member_refuted)",
 }
 
 # deviation classes whose CUE meaning depends on evaluator interactions that Schema/Encode.v does not model
-UNMODELLED = {"7", "11"}
+UNMODELLED = {"7", "11", "12"}
 
 SCALAR_KEYS = {"type", "enum", "const", "multipleOf", "exclusiveMaximum", "exclusiveMinimum", "maximum", "minimum",
                "maxLength", "minLength", "pattern", "maxProperties", "minProperties", "maxItems", "minItems",
